@@ -1272,7 +1272,7 @@ Proof. intros Ha Hs Hc. cbn [ops_x]. rewrite Ha. now split. Qed.
 (* ---------------------------------------------------------------- the F10 histories, repaired and pinned *)
 Definition cfgo (moveout : bool) : cfg :=
   {| c_recursive := true; c_mask := WATCHDOG_ALL; c_root := pR; c_fix_ignored := true; c_fix_movein := true;
-     c_fix_simulate := true; c_fix_moveout := moveout; c_faults := [] |}.
+     c_fix_simulate := true; c_fix_relabel := true; c_fix_moveout := moveout; c_faults := [] |}.
 
 (* F10b: mv R/b O/x; (drain); mkdir R/b; mv R/b R/a      (preceded by mkdir R/b) *)
 Definition f10b_ops : list op :=
